@@ -305,6 +305,18 @@ class Evaluator(object):
             if isinstance(tgt, VInstance):
                 tgt.attrs[t.attr] = v
 
+    def _pairs(self, v):
+        """[(key, value)] if `v` is a known sequence of 2-sequences with known hashable keys."""
+        seq = self._iterate(v)
+        if seq is None:
+            return None
+        out = []
+        for it in seq:
+            if not isinstance(it, (tuple, list)) or len(it) != 2 or is_unknown(it[0]) or not hashable(it[0]):
+                return None
+            out.append((it[0], it[1]))
+        return out
+
     def _iterate(self, v):
         if isinstance(v, (tuple, list)):
             return list(v)
@@ -477,7 +489,9 @@ class Evaluator(object):
             if is_unknown(t):
                 return t
             return self._eval(m, e.body if _truth(t) else e.orelse, env, cls, stmt)
-        if isinstance(e, ast.ListComp) and len(e.generators) == 1 and not e.generators[0].ifs:
+        if isinstance(e, (ast.ListComp, ast.GeneratorExp, ast.DictComp)) and len(e.generators) == 1:
+            # one `for` over a sequence the evaluator knows; filters must evaluate (a generator expression is evaluated as
+            # the list it yields: the tables consume it on the spot)
             g = e.generators[0]
             seq = self._iterate(self._eval(m, g.iter, env, cls, stmt))
             if seq is None:
@@ -486,7 +500,29 @@ class Evaluator(object):
             for item in seq:
                 sub = dict(env) if isinstance(env, dict) else _ClassScope(dict(env.c), env.g)
                 self._assign(m, g.target, item, sub, cls, stmt)
-                out.append(self._eval(m, e.elt, sub, cls, stmt))
+                keep = True
+                for c in g.ifs:
+                    t = self._eval(m, c, sub, cls, stmt)
+                    if is_unknown(t):
+                        return Unknown('comprehension filter %s' % norm(c))
+                    if not _truth(t):
+                        keep = False
+                        break
+                if not keep:
+                    continue
+                if isinstance(e, ast.DictComp):
+                    out.append((self._eval(m, e.key, sub, cls, stmt), self._eval(m, e.value, sub, cls, stmt)))
+                else:
+                    out.append(self._eval(m, e.elt, sub, cls, stmt))
+            if isinstance(e, ast.DictComp):
+                d = VDict()
+                for kv, vv in out:
+                    if is_unknown(kv) or not hashable(kv):
+                        d.d['<poisoned>'] = Unknown('unknown key %s' % norm(e.key))
+                    else:
+                        d.d[kv] = vv
+                        d.history.append(('literal', kv, vv, e.key))
+                return d
             return out
         if isinstance(e, ast.Lambda):
             return Unknown('lambda')
@@ -675,8 +711,18 @@ class Evaluator(object):
                 return bytes(*args)
             except Exception:
                 return Unknown('bytes')
-        if f is _BUILTINS.get('dict') and not args:
-            d = VDict()
+        if f is _BUILTINS.get('dict') and len(args) <= 1:
+            if args and isinstance(args[0], VDict):
+                d = args[0].copy()          # dict(table): a shallow copy, like table.copy()
+            else:
+                d = VDict()
+                if args:
+                    pairs = self._pairs(args[0])
+                    if pairs is None:
+                        return Unknown('dict() of unknown')
+                    for k, v in pairs:
+                        d.d[k] = v
+                        d.history.append(('literal', k, v, e))
             for k, v in kwargs.items():
                 d.d[k] = v
             return d
@@ -695,6 +741,10 @@ class Evaluator(object):
                 for a in args:
                     if isinstance(a, VDict):
                         for k, v in a.d.items():
+                            base.d[k] = v
+                            base.history.append(('update', k, v, stmt))
+                    elif self._pairs(a) is not None:
+                        for k, v in self._pairs(a):      # update(iterable of (key, value))
                             base.d[k] = v
                             base.history.append(('update', k, v, stmt))
                     else:
